@@ -383,7 +383,7 @@ Definition step (w : world) (o : op) : world * res :=
                               else (set_doc w d (mkD (dmain dd)
                                       (dbundles dd ++ [(qn_uri q, mkB (Some q) m (brecs nb) (bidmap nb))])%list),
                                     RUnit)
-                          | OK (_, None) => (w, ROOD)
+                          | OK (_, None) => (w, RRaise EProv)     (* identifier not valid (as repaired) *)
                           | Raise e => (w, RRaise e)
                           | OutOfDomain => (w, ROOD)
                           end
